@@ -47,7 +47,7 @@ class FatalScenario:
         elif shape == "big":
             sizes = [rnd.choice([5000, 9000, 16380, 16384, 17000, 40]) for _ in range(rnd.randint(2, 6))]
         else:
-            sizes = [rnd.randint(20, 80) for _ in range(5000)]
+            sizes = [rnd.randint(20, 80) for _ in range(3000)]
         if shape in ("many", "huge"):
             # long histories: few rotations (validation cost grows with the number of files in the directory)
             for s in self.sinks:
